@@ -13,8 +13,12 @@ MC_CFG = "CONSTANTS MaxN = %d\nMaxI = %d\nSPECIFICATION Spec\nINVARIANT LatinHol
 BOXES = [[0.0, 1.0], [-3.0, -1.0], [1e-9, 2e-9], [-1e6, 1e6], [100.0, 100.5], [-0.25, 0.75], [2.0, 1024.0], [-1e-3, 1e-3], [5.0, 5.5]]
 
 
+NAMES = ['width', 'height', 'angle', 'x_10', 'x_2', 'zeta', 'beta', 'alpha', 'mass', 'k', 'y', 'c', 'x_1', 'b', 'a']
+
+
 def make_params(rng, d):
-    return [{'name': 'x%d' % i, 'bounds': list(rng.choice(BOXES))} for i in range(d)]
+    # declaration order deliberately differs from the lexicographic order of the names
+    return [{'name': NAMES[i] if i < len(NAMES) else 'q%d' % (99 - i), 'bounds': list(rng.choice(BOXES))} for i in range(d)]
 
 
 def unit(x, b):
